@@ -204,7 +204,8 @@ def lofMat (tnw : Bool) (pos vel : V3) : M3 :=
 
 /-! ## centres and `Frame.transform` -/
 
-/-- `Center.add_link(parent, orientation, offset)`: the offset (evaluated at the date) is expressed in orientation `ori` -/
+/-- `Center.add_link(parent, orientation, offset)`: the offset (evaluated at the date; since 405734d the *cartesian* coordinates of
+the point when the offset is a StateVector, whatever form it is held in) is expressed in orientation `ori` -/
 structure CLink where
   child : Nat
   parent : Nat
